@@ -115,7 +115,11 @@ pub fn run(tier: Tier) -> i32 {
                 let phrase = format!("{int_text} {} {spoken}", l.sep());
                 let want_num = format!("{n}{}{d}", l.mark());
                 let nframes = if d.len() <= 2 { 3 } else { 1 };
-                for (pre, suf) in frames.iter().take(nframes) {
+                // French: an article in front of the number (the 'neuf' rule looks two and three words back)
+                let fr_frames: [(&str, &str); 3] = [("du ", " environ"), ("le ", ""), ("le xyzzy ", " plugh")];
+                // (not with the bare integer 'neuf': after an article and a noun it is read as the adjective — the library's heuristic)
+                let extra: &[(&str, &str)] = if l == L::Fr && d.len() <= 2 && d.starts_with('9') && n != 9 { &fr_frames } else { &[] };
+                for (pre, suf) in frames.iter().take(nframes).chain(extra.iter()) {
                     let s = format!("{pre}{phrase}{suf}");
                     let exp = format!("{pre}{want_num}{suf}");
                     acc.traces += 1;
@@ -207,6 +211,24 @@ pub fn run(tier: Tier) -> i32 {
                 (format!("xyzzy {int_text} {sep}, plugh"), "separator followed by punctuation".into()),
                 (format!("xyzzy {int_text} {sep}"), "separator at the end of the text".into()),
             ];
+            // a second separator: directly after the first (nothing usable after it), and inside a fraction already
+            // begun (the decimal ends there; the second separator stays a word)
+            {
+                let d5 = spell_fraction(l, "5");
+                let d1 = spell_fraction(l, "1");
+                let m = l.mark();
+                for (s, exp, what) in [
+                    (format!("xyzzy {int_text} {sep} {sep} {d5} plugh"), format!("xyzzy {n} {sep} {sep} 5 plugh"), "two separators in a row"),
+                    (format!("xyzzy {int_text} {sep} {d1} {sep} {d5} plugh"), format!("xyzzy {n}{m}1 {sep} 5 plugh"), "a separator inside a fraction"),
+                ] {
+                    acc.states += 1;
+                    acc.traces += 1;
+                    let got = guard(|| replace_numbers_in_text(&s, &lang, 0.0)).unwrap_or_else(|p| p);
+                    if got != exp {
+                        ctx.report(acc, Violation { lang: l.code().into(), entry: "replace_text".into(), input: s, threshold: Some(0.0), clause: format!("{what}: the second separator is left as a word"), expected: exp, observed: got });
+                    }
+                }
+            }
             if l == L::De || l == L::En {
                 let teen = spell::spell(l, 15, Var::default());
                 negs.push((format!("xyzzy {int_text} {sep} {teen} plugh"), "fraction not dictated digit by digit".into()));
